@@ -1,6 +1,7 @@
 import Drv.C01
 import Drv.Index
 import Drv.C13
+import Drv.RL
 open Lean Drv
 
 def dispatch (op : String) (j : Json) : Json :=
@@ -10,6 +11,9 @@ def dispatch (op : String) (j : Json) : Json :=
   | "C01.flat" => C01.flat j
   | "C02.getitem" => C02.getitem j
   | "C13.all" => C13.all j
+  | "RL.encode" => RL.encode j
+  | "RL.index" => RL.index j
+  | "RL.binop" => RL.binop j
   | _ => obj [("error", toJson s!"bad-op {op}")]
 
 def handle (line : String) : String :=
